@@ -27,7 +27,6 @@ CHECK = {
         {"fn": P + "vC31_resend", "replay": "model-only", "tiers": ("thorough",), "opts": {"substitute": SUB_RESEND, "unwind": 6, "rounds": 2},
          "cover_optional": ("sent-after-deactivation", "fresh-instance", "handled-by-old-or-dropped")},
     ],
-    "opts_thorough": {"rounds": 5},
     "opts": {"rounds": 3, "unwind": 4, "unwind_mode": "assume", "feasibility": False, "substitute": SUB},
     "stop": STOP,
     "timeout_ms": {"quick": 900000, "thorough": 1800000},
